@@ -663,7 +663,37 @@ def run_property(ctx, pid, invariants, properties, quick_programs, thorough_prog
         else:
             ctx.note(f"finding {f} was not reproduced on the code (it departs from the recorded history at step {mism['step']} {mism['label']}: "
                      f"{sorted(mism['diff'])}); if it was repaired, move the entry of known_findings.json to kind=fixed")
-    ctx.cov["traces_validated_against_impl"] = sum(s["walks"] for s in ctx.cov.get("graph_replay", []))
+    # (4) B2: random histories of the real code on larger programs, validated by TLC (all of this property's formulas at every step)
+    BP = big_programs()
+    b2 = [("big5", 25, 60)] if ctx.quick else [("big5", 400, 80), ("wide6", 400, 80)]
+    n_b2 = 0
+    for bn, ntr, ln in b2:
+        bp = BP[bn]
+        res, lines, nev, errs = validate_histories(ctx, bp, ntr, ln, ["TypeOK"] + list(invariants), list(properties))
+        ctx.add_tlc(res, f"trace validation: {ntr} random histories of the real code on program {bn} ({nev} events)")
+        n_b2 += ntr
+        total_steps += nev
+        if not res.violations and res.distinct < nev:
+            raise RuntimeError(f"trace validation explored {res.distinct} states for {nev} events")
+        for v in res.violations:
+            last = v.trace[-1][1] if v.trace else {}
+            tid, l = last.get("tid"), last.get("l")
+            evs = json.loads(lines[tid - 1])["ev"] if tid else []
+            nxt = evs[l - 1] if tid and l and l <= len(evs) else None
+            if v.kind == "deadlock":
+                sig = f"trace:unexplained:{nxt['a'] if nxt else 'end'}"
+            else:
+                sig = f"trace:{v.name}"
+            ctx.violation(sig, {"program": bn, "violated": v.name, "history": [(e["a"], e["args"], e["noop"]) for e in evs[:l]],
+                                "spec_state_before": {k: tlaval.to_py(last[k]) for k in sorted(foot) if k in last},
+                                "code_state_after": {k: (nxt["post"].get(k) if nxt else None) for k in sorted(foot)}})
+        if pid == "C07":
+            for e in errs:
+                if e[0] in ("ScheduleProc", "Started", "CreatingProc"):
+                    ctx.violation(f"sqlerror:{e[0]}:{e[2]}", {"program": bn, "error": e})
+        if lines:
+            ctx.sample({"program": bn, "history": [(e["a"], e["args"]) for e in json.loads(lines[0])["ev"][:15]]})
+    ctx.cov["traces_validated_against_impl"] = sum(s["walks"] for s in ctx.cov.get("graph_replay", [])) + n_b2
     ctx.cov["evaluations"] = total_steps
     ctx.cov["distinct_nontrivial"] = total_edges
     ctx.cov["exhaustive"] = False if ctx.quick else all(s["edges_covered"] == s["edges"] for s in ctx.cov.get("graph_replay", []))
@@ -675,3 +705,153 @@ def run_property(ctx, pid, invariants, properties, quick_programs, thorough_prog
                "user variables in INSERT..SELECT..ON DUPLICATE KEY UPDATE are evaluated row by row in step with the insert",
                "one batch, one user, one instance collection; shard tokens summed out; placement (select_inst_coll) is faked",
                "behaviours entering the scenarios of recorded findings (" + ", ".join(ALL_AVOID) + ") are excluded from the main run and handled per finding")
+
+
+# ---- B2: random histories of the real code validated by TLC against BatchDBTrace --------------------------------------------
+def big_programs():
+    P = {}
+    P["big5"] = Program("big5", {1: job(), 2: job(grp=1, par=[1], cores=250), 3: job(grp=2, par=[1, 2], always=True), 4: job(upd=2, grp=2, par=[2]),
+                                 5: job(upd=2, grp=3, cores=250)},
+                        {1: dict(parent=0, upd=1), 2: dict(parent=1, upd=1), 3: dict(parent=0, upd=2)}, 2,
+                        att_ids=("a1", "a2", "a3"), insts=("i1", "i2"), inst_cores=4000, times=(0, 1, 2, 3), days=(0, 1),
+                        features=("jpim", "billing", "cleaners", "delete", "deactivate"))
+    P["wide6"] = Program("wide6", {1: job(grp=1), 2: job(grp=1, cores=250), 3: job(grp=2, par=[1]), 4: job(grp=2, par=[1, 2], always=True),
+                                   5: job(grp=3, par=[3, 4]), 6: job(par=[5], always=True, cores=250)},
+                         {1: dict(parent=0, upd=1), 2: dict(parent=1, upd=1), 3: dict(parent=1, upd=1), 4: dict(parent=2, upd=1)}, 1,
+                         att_ids=("a1", "a2"), insts=("i1", "i2", "i3"), inst_cores=2000, times=(0, 1, 2), days=(0, 1),
+                         features=("jpim", "billing", "cleaners", "deactivate"))
+    for p in P.values():
+        p.check()
+    return P
+
+
+def trace_post(p: Program, st):
+    G = [0] + sorted(p.groups)
+    U = p.updates()
+    J = sorted(p.jobs)
+    return {
+        "us": [st["us"][u] for u in U], "gex": [st["gex"][g] for g in G], "gst": [st["gst"][g] for g in G], "gnj": [st["gnj"][g] for g in G],
+        "tally": [st["tally"][g] for g in G], "ugrp": [st["ugrp"][g] for g in G], "canc": sorted(st["canc"]),
+        "bst": st["bst"], "bnj": st["bnj"], "bdel": st["bdel"],
+        "js": [st["js"][j] for j in J], "jc": [st["jc"][j] for j in J], "npp": [st["npp"][j] for j in J], "jatt": [st["jatt"][j] for j in J],
+        "ujob": [st["ujob"][j] for j in J],
+        "stg": [[st["stg"][u][g] for g in G] for u in U], "cr": [[st["cr"][u][g] for g in G] for u in U], "ur": st["ur"],
+        "att": [st["att"][j] for j in J], "ares": [st["ares"][j] for j in J], "inst": st["inst"], "ubp": st["ubp"],
+        "udate": [st["udate"][d] for d in sorted(p.days)], "today": st["today"],
+    }
+
+
+def random_history(p: Program, rng: random.Random, length: int, seed: int):
+    """Drive the real code with random operations that respect the environment assumptions of BatchDB (workers report only
+    about dispatched attempts on activated instances; the loops act on what their real selection queries return) and that stay
+    out of the scenarios of recorded findings.  Returns the list of events."""
+    impl = Impl(p, seed=seed)
+    ev = []
+    disp, jdisp = set(), set()
+    st = impl.project()
+    J = sorted(p.jobs)
+    G = sorted(p.groups)
+
+    def grpcanc(g):
+        return any(a in st["canc"] for a in p.anc(g))
+
+    def committed(j):
+        return st["us"][p.jobs[j]["upd"]] == "committed"
+
+    def has_uncommitted_child(j):
+        return any(j in d["par"] and st["js"][c] != "none" and not committed(c) for c, d in p.jobs.items())
+
+    try:
+        for _ in range(length):
+            cands = []
+            U = p.updates()
+            for u in U:
+                if u == 1 or st["us"][u - 1] != "none":       # a client's update n+1 follows update n (ids are assigned in creation order)
+                    cands.append(("CreateUpdate", [u]))
+                if all(st["us"][v] == "committed" for v in U if v < u) and 0 not in st["canc"]:
+                    cands.append(("Commit", [u]))       # stays out of "ooc" / "toctou"
+            for g in G:
+                cands.append(("InsertGroup", [g]))
+            for g in [0] + G:
+                cands.append(("CancelGroup", [g]))
+            for j in J:
+                cands.append(("InsertJob", [j]))
+                cands.append(("InsertJob", [j]))
+            if "delete" in p.features and 0 in st["canc"] and rng.random() < 0.1:   # _delete_batch's own cancel step = CancelGroup(0)
+                cands.append(("MarkDeleted", []))
+            live = {i: st["inst"][i]["st"] for i in p.insts}
+            sel = impl.w.driver_selection() if rng.random() < 0.6 else None
+            if sel is not None:
+                for (j,) in (sel["schedule"] if isinstance(sel["schedule"], set) else ()):
+                    free_a = [a for a in p.att_ids if not st["att"][j][a]["ex"] and not any((j, a, i) in disp for i in p.insts)]
+                    for i in p.insts:
+                        if free_a and live[i] == "active":
+                            cands.append(("SchedSelect", [j, free_a[0], i]))
+                        if free_a and "jpim" in p.features and live[i] == "pending" and st["inst"][i]["free"] == p.inst_cores \
+                                and not any(t[2] == i for t in disp):
+                            cands.append(("JpimSelect", [j, free_a[0], i]))
+                for (j,) in (sel["cancel_ready"] if isinstance(sel["cancel_ready"], set) else ()):
+                    if not has_uncommitted_child(j):
+                        cands += [("CancelReady", [j])] * 3
+                for loop, act in (("cancel_creating", "CancelCreating"), ("cancel_running", "CancelRunning"), ("orphan", "Orphan")):
+                    for (j, a) in (sel[loop] if isinstance(sel[loop], set) else ()):
+                        if act == "CancelCreating" and (has_uncommitted_child(j) or live.get(st["att"][j][a]["inst"]) == "pending"):
+                            continue  # stays out of "uncchild" / "pendrel"
+                        cands += [(act, [j, a, rng.choice(p.times)])] * 3
+            for (j, a, i) in sorted(disp):
+                cands.append(("ScheduleProc", [j, a, i]))
+                if live[i] in ("active", "inactive"):
+                    cands.append(("Started", [j, a, i, rng.choice(p.times)]))
+                    if not (st["js"][j] in ("Ready", "Creating", "Running") and has_uncommitted_child(j)):
+                        t0, t1 = sorted([rng.choice(p.times), rng.choice(p.times)])
+                        cands.append(("Complete", [j, a, i, rng.choice(["Success", "Success", "Failed"]), t0, t1]))
+                    if "billing" in p.features and st["att"][j][a]["ex"]:
+                        cands.append(("Heartbeat", [j, a, rng.choice(p.times)]))
+                if "billing" in p.features and st["att"][j][a]["ex"]:
+                    cands.append(("AddResources", [j, a]))
+            for (j, a, i) in sorted(jdisp):
+                cands.append(("CreatingProc", [j, a, i, rng.choice(p.times)]))
+            for i in p.insts:
+                cands.append(("Activate", [i]))
+                if "deactivate" in p.features and rng.random() < 0.15:
+                    cands.append(("Deactivate", [i, rng.choice(p.times)]))
+            if "billing" in p.features and rng.random() < 0.05:
+                cands.append(("NextDay", []))
+            if "cleaners" in p.features and rng.random() < 0.2:
+                cands += [("CleanStaging", []), ("CleanCancellable", [])]
+            name, args = rng.choice(cands)
+            if name == "NextDay" and st["today"] + 1 not in p.days:
+                continue
+            impl.apply(name, args)
+            if name in ("SchedSelect", "JpimSelect"):
+                disp.add(tuple(args))
+                if name == "JpimSelect":
+                    jdisp.add(tuple(args))
+            new = impl.project()
+            noop = all(new[k] == st[k] for k in COMPARE)
+            ev.append({"a": name, "args": args, "noop": noop, "post": trace_post(p, new)})
+            st = new
+        errs = list(impl.sqlerrors)
+    finally:
+        impl.close()
+    return ev, errs
+
+
+def validate_histories(ctx, p: Program, n_traces: int, length: int, invariants, properties, tag="b2"):
+    rng = random.Random(ctx.seed * 1000003 + len(p.name))
+    lines = []
+    all_errs = []
+    nev = 0
+    for k in range(n_traces):
+        ev, errs = random_history(p, rng, length, seed=ctx.seed * 7919 + k)
+        nev += len(ev)
+        all_errs += errs
+        lines.append(json.dumps({"ev": ev}))
+    name = f"TR_{p.name}"
+    mod = mc_module(p, name).replace("EXTENDS BatchDBLive", "EXTENDS BatchDBTrace")
+    consts_cfg = mc_cfg(p, ALL_AVOID, invariants, properties, spec="TraceSpec").replace("CHECK_DEADLOCK FALSE", "CHECK_DEADLOCK TRUE")
+    wd = tlc.prepare_dir(ctx.build / f"trace_{p.name}", ["batchdb"], {f"{name}.tla": mod, f"{name}.cfg": consts_cfg})
+    tf = wd / "traces.ndjson"
+    tf.write_text("\n".join(lines) + "\n")
+    res = tlc.run(wd, name, f"{name}.cfg", workers=min(ctx.workers, 8), env={"TRACE_FILE": tf}, timeout=3000)
+    return res, lines, nev, all_errs
